@@ -13,7 +13,8 @@ Decides the "leave everything unchanged" clause structurally:
  R5 the gate predicates themselves: check_trace_id == (id == cfg.trace_identifier ∨ id == 0);
     in_round == (seq ≥ round_sequence ∧ seq − round_sequence < BUFFER_SIZE).
  R6 a never-sent / stale sequence inside the window must not crash: complete_probe has no panicking trace.
-Not decided: arrival-order semantics over many rounds (window separation is C07's constant relation);
+C07.R5 (imported): advance_round restarts the numbering only at max_sequence(), whose two regimes leave a whole buffer of numbers per round.
+Not decided: arrival-order semantics over many rounds (the two-round separation itself is C07.R7, with its known findings);
 multi-tracer interference beyond the trace-id / validate gates.
 """
 import re
@@ -36,6 +37,10 @@ def run(chk, tier):
                         'Network::recv_probe is the only source of responses (trait boundary)']
     cg = CallGraph(prog)
     eng0 = Engine(prog, inline_depth=0)
+    # "responses to the previous round's probes leave everything unchanged" rests on in_round (R5) *and* on the wrap rule that keeps a restarted
+    # window away from the numbers just used: imported so that a narrowed wrap threshold is reported here and not only under C07
+    from ..report import run_sub
+    run_sub(chk, 'c07', 'C07.', {'R5'})
 
     # ---- R1 -------------------------------------------------------------------------------------------
     chk.rule('R1', 'complete_probe is called only by the receive step', floor=1)
